@@ -108,8 +108,9 @@ type entry struct {
 	note  string // e.g. "verdict only"
 	// ret, when set, performs the call and also hands out pointers to every reference-bearing value the
 	// library returned (pointers, slices, maps, big.Ints); call is then derived from it
-	ret func() ([]byte, []interface{})
-	pool  bool   // borrows from a process-wide pool (big.Int pools): interleaved with its likes in the histories
+	ret     func() ([]byte, []interface{})
+	classes []string // extra class labels of the cases this entry takes part in (e.g. the rejection kinds of a decoder pool)
+	pool    bool     // borrows from a process-wide pool (big.Int pools): interleaved with its likes in the histories
 	// filled by the group
 	first []byte // result of the very first call in this process (sequential)
 	idx   int
@@ -249,12 +250,22 @@ func scribbleHint(e *entry) string {
 }
 
 func retClass(es ...*entry) []string {
+	var r []string
+	scr := false
+	seen := map[string]bool{}
 	for _, e := range es {
-		if e.ret != nil {
-			return []string{"scribble_returned"}
+		if e.ret != nil && !scr {
+			scr = true
+			r = append(r, "scribble_returned")
+		}
+		for _, c := range e.classes {
+			if !seen[c] {
+				seen[c] = true
+				r = append(r, c)
+			}
 		}
 	}
-	return nil
+	return r
 }
 
 // keyDefaultParams: known-finding key under which poseidon2.GetDefaultParameters handing out the process-wide
